@@ -258,6 +258,10 @@ class Variable:
             else:
                 labels = [self.name]
         elif self.kind == "categoric":
-            labels = [f"{self.name}[{label}]" for label in self.contrast_matrix.labels]
+            if self.contrast_matrix is None:
+                # Response created with 'variable[level]': a single 0-1 column
+                labels = [f"{self.name}[{self.reference}]"]
+            else:
+                labels = [f"{self.name}[{label}]" for label in self.contrast_matrix.labels]
 
         return labels
